@@ -4,6 +4,8 @@
 (*   Core.Name  Core.Base  Core.Ext  Core.Dir   (tempren/tags/core.py; values: Py/PathLib.v)      *)
 (*   Core.Count                                 (tempren/tags/core.py; state machine: Tags/Count.v) *)
 (*   Text.Upper Text.Lower                      (tempren/tags/text.py: context.upper() / .lower()) *)
+(*   Text.Trim Text.Pad Text.Strip Text.Collapse Text.SplitCase                                   *)
+(*                                              (tempren/tags/text.py; functions: Tags/TextTags.v) *)
 (* Every other tag is "not in the core library": it has no row in [core_rows], so a template     *)
 (* that mentions it does not compile against [core_reg].                                         *)
 (* The case maps are Section variables (str.upper / str.lower are Unicode tables, and not        *)
@@ -13,6 +15,7 @@
 From Tempren Require Import Base.Str Py.PathLib Py.Repr Tags.Count.
 From Tempren Require Import Tpl.Registry Tpl.Signature Tpl.Alias.
 From Tempren Require Import FS.Model Pipe.Pipeline Pipe.FrontCompile.
+From Tempren Require Tags.TextTags.
 Open Scope N_scope.
 
 (* ---------- names ---------------------------------------------------------------------------- *)
@@ -31,6 +34,20 @@ Definition s_width : str := [119; 105; 100; 116; 104].
 Definition s_common : str := [99; 111; 109; 109; 111; 110].
 Definition s_int : str := [105; 110; 116].
 Definition s_bool : str := [98; 111; 111; 108].
+Definition s_Trim : str := [84; 114; 105; 109].
+Definition s_Pad : str := [80; 97; 100].
+Definition s_Strip : str := [83; 116; 114; 105; 112].
+Definition s_Collapse : str := [67; 111; 108; 108; 97; 112; 115; 101].
+Definition s_SplitCase : str := [83; 112; 108; 105; 116; 67; 97; 115; 101].
+Definition s_left : str := [108; 101; 102; 116].
+Definition s_right : str := [114; 105; 103; 104; 116].
+Definition s_character : str := [99; 104; 97; 114; 97; 99; 116; 101; 114].
+Definition s_strip_characters : str := [115; 116; 114; 105; 112; 95; 99; 104; 97; 114; 97; 99; 116; 101; 114; 115].
+Definition s_characters : str := [99; 104; 97; 114; 97; 99; 116; 101; 114; 115].
+Definition s_separator : str := [115; 101; 112; 97; 114; 97; 116; 111; 114].
+Definition s_str : str := [115; 116; 114].
+Definition s_False : str := [70; 97; 108; 115; 101].
+Definition s_space_repr : str := [39; 32; 39].        (* ' ' *)
 
 (* factory ids *)
 Definition fid_Name : fid := 0.
@@ -40,6 +57,11 @@ Definition fid_Dir : fid := 3.
 Definition fid_Count : fid := 4.
 Definition fid_Upper : fid := 5.
 Definition fid_Lower : fid := 6.
+Definition fid_Trim : fid := 7.
+Definition fid_Pad : fid := 8.
+Definition fid_Strip : fid := 9.
+Definition fid_Collapse : fid := 10.
+Definition fid_SplitCase : fid := 11.
 
 (* ---------- Count: configure(start: int = 0, step: int = 1, width: int = 0, common: bool = False) ---- *)
 
@@ -101,8 +123,98 @@ Definition count_sig : Signature.sig :=
                 {| p_name := s_common; p_ann := s_bool; p_dflt := Some [70; 97; 108; 115; 101] |} ];
      s_varpos := None; s_kwonly := []; s_varkw := None |}.
 
+
+(* ---------- the text tags with arguments (tempren/tags/text.py) ---------------------------------------- *)
+(* The template language supplies int, str and bool values and configure does not check types, so each    *)
+(* formal is read the way the Python code uses the value:                                                 *)
+(*   a flag (left, right)      by its truth value (`if self.left`, `left or right`);                      *)
+(*   an int (width)            bool is an int; a str passes Trim's `width != 0` and fails in process      *)
+(*                             (TypeError of the slice), it fails Pad's `width > 0` in configure;         *)
+(*   a str (characters ...)    an int/bool fails where a str operation is applied to it: in configure for *)
+(*                             Pad (len) and Collapse (re.escape), in process for Strip and - when there  *)
+(*                             is a case boundary to fill - SplitCase.                                    *)
+(* Any exception of configure is a ConfigurationError of the compiler ([accepts] = false); an exception   *)
+(* of process leaves the pipeline as it is (ExOther).                                                     *)
+
+Definition flag_arg (i : nat) (k : str) (a : targs) : bool :=
+  match arg_at i k a with Some v => arg_truthy v | None => false end.
+
+Definition flag_sig_param (k : str) : param := {| p_name := k; p_ann := s_bool; p_dflt := Some s_False |}.
+
+(* Trim.configure(width: int, left: bool = False, right: bool = False) *)
+Definition trim_sig : Signature.sig :=
+  {| s_pos := [ {| p_name := s_width; p_ann := s_int; p_dflt := None |}; flag_sig_param s_left; flag_sig_param s_right ];
+     s_varpos := None; s_kwonly := []; s_varkw := None |}.
+
+(* `width != 0` *)
+Definition arg_nonzero (v : argval) : bool :=
+  match v with
+  | AInt z => negb (z =? 0)%Z
+  | ABool b => b
+  | AStr _ => true
+  end.
+
+Definition trim_accepts (a : targs) : bool :=
+  match arg_at 0 s_width a with
+  | Some v => arg_nonzero v && negb (flag_arg 1 s_left a && flag_arg 2 s_right a)
+              && (flag_arg 1 s_left a || flag_arg 2 s_right a)
+  | None => false                       (* unreachable: the binding demands width *)
+  end.
+
+(* Pad.configure(width: int, character: str = ' ', left: bool = False, right: bool = False) *)
+Definition pad_sig : Signature.sig :=
+  {| s_pos := [ {| p_name := s_width; p_ann := s_int; p_dflt := None |};
+                {| p_name := s_character; p_ann := s_str; p_dflt := Some s_space_repr |};
+                flag_sig_param s_left; flag_sig_param s_right ];
+     s_varpos := None; s_kwonly := []; s_varkw := None |}.
+
+(* a str argument with default " "; None: the value supplied is not a str *)
+Definition str_arg (i : nat) (k : str) (a : targs) : option str :=
+  match arg_at i k a with
+  | None => Some [32]
+  | Some (AStr t) => Some t
+  | Some _ => None
+  end.
+
+Definition pad_accepts (a : targs) : bool :=
+  match arg_at 0 s_width a, str_arg 1 s_character a with
+  | Some v, Some ch =>
+    match arg_int v with
+    | Some w => TextTags.pad_cfg_ok w ch (flag_arg 2 s_left a) (flag_arg 3 s_right a)
+    | None => false                     (* str > 0: TypeError *)
+    end
+  | _, _ => false                       (* len(int): TypeError *)
+  end.
+
+(* Strip.configure(strip_characters: str = ' ', left: bool = False, right: bool = False) *)
+Definition strip_sig : Signature.sig :=
+  {| s_pos := [ {| p_name := s_strip_characters; p_ann := s_str; p_dflt := Some s_space_repr |};
+                flag_sig_param s_left; flag_sig_param s_right ];
+     s_varpos := None; s_kwonly := []; s_varkw := None |}.
+
+(* Collapse.configure(characters: str = " ") *)
+Definition collapse_sig : Signature.sig :=
+  {| s_pos := [ {| p_name := s_characters; p_ann := s_str; p_dflt := Some s_space_repr |} ];
+     s_varpos := None; s_kwonly := []; s_varkw := None |}.
+
+(* re.compile of a character class: the empty class "[]" is not a regular expression; re.escape of an int fails *)
+Definition collapse_accepts (a : targs) : bool :=
+  match str_arg 0 s_characters a with
+  | Some [] => false
+  | Some _ => true
+  | None => false
+  end.
+
+(* SplitCase.configure(separator: str = " "): `assert separator` *)
+Definition splitcase_sig : Signature.sig :=
+  {| s_pos := [ {| p_name := s_separator; p_ann := s_str; p_dflt := Some s_space_repr |} ];
+     s_varpos := None; s_kwonly := []; s_varkw := None |}.
+
+Definition splitcase_accepts (a : targs) : bool :=
+  match arg_at 0 s_separator a with Some v => arg_truthy v | None => true end.
+
 (* ---------- the registry rows --------------------------------------------------------------------- *)
-(* require_context: None (optional) for the four path tags, False for Count, True for Upper / Lower *)
+(* require_context: None (optional) for the four path tags, False for Count, True for the text tags *)
 Definition any_args (_ : targs) : bool := true.
 
 Definition core_rows : list row :=
@@ -112,7 +224,12 @@ Definition core_rows : list row :=
     ((s_Core, s_Dir, fid_Dir), KClass empty_sig None any_args);
     ((s_Core, s_Count, fid_Count), KClass count_sig (Some false) count_accepts);
     ((s_Text, s_Upper, fid_Upper), KClass empty_sig (Some true) any_args);
-    ((s_Text, s_Lower, fid_Lower), KClass empty_sig (Some true) any_args) ].
+    ((s_Text, s_Lower, fid_Lower), KClass empty_sig (Some true) any_args);
+    ((s_Text, s_Trim, fid_Trim), KClass trim_sig (Some true) trim_accepts);
+    ((s_Text, s_Pad, fid_Pad), KClass pad_sig (Some true) pad_accepts);
+    ((s_Text, s_Strip, fid_Strip), KClass strip_sig (Some true) any_args);
+    ((s_Text, s_Collapse, fid_Collapse), KClass collapse_sig (Some true) collapse_accepts);
+    ((s_Text, s_SplitCase, fid_SplitCase), KClass splitcase_sig (Some true) splitcase_accepts) ].
 
 Definition core_depth : nat := 20.
 
@@ -151,6 +268,45 @@ Definition ascii_upper_char (c : N) : N := if is_ascii_lower c then c - 32 else 
 Definition ascii_upper_str (s : str) : str := map ascii_upper_char s.
 Definition ascii_lower_str (s : str) : str := Str.ascii_lower s.
 
+
+(* process of the text tags with arguments, on a context *)
+Definition text_sem (f : fid) (a : targs) (t : str) : tout :=
+  if f =? fid_Trim then
+    match arg_at 0 s_width a with
+    | Some v =>
+      match arg_int v with
+      | Some w => OVal (VStr (TextTags.trim w (flag_arg 1 s_left a) t))
+      | None => ORaise Signature.ExOther                   (* context[-"..":]: TypeError *)
+      end
+    | None => ORaise Signature.ExOther
+    end
+  else if f =? fid_Pad then
+    match arg_at 0 s_width a, str_arg 1 s_character a with
+    | Some v, Some ch =>
+      match arg_int v with
+      | Some w => OVal (VStr (TextTags.pad w (hd 32 ch) (flag_arg 2 s_left a) (flag_arg 3 s_right a) t))
+      | None => ORaise Signature.ExOther
+      end
+    | _, _ => ORaise Signature.ExOther                     (* unreachable after a successful compile *)
+    end
+  else if f =? fid_Strip then
+    match str_arg 0 s_strip_characters a with
+    | Some set => OVal (VStr (TextTags.strip_tag set (flag_arg 1 s_left a) (flag_arg 2 s_right a) t))
+    | None => ORaise Signature.ExOther                     (* context.strip(5): TypeError *)
+    end
+  else if f =? fid_Collapse then
+    match str_arg 0 s_characters a with
+    | Some set => OVal (VStr (TextTags.collapse set t))
+    | None => ORaise Signature.ExOther                     (* unreachable after a successful compile *)
+    end
+  else if f =? fid_SplitCase then
+    match str_arg 0 s_separator a with
+    | Some sep => OVal (VStr (TextTags.split_case sep t))
+    | None =>                                              (* str + int: TypeError, where a boundary is found *)
+      if Nat.eqb (TextTags.boundaries t) 0 then OVal (VStr t) else ORaise Signature.ExOther
+    end
+  else ORaise Signature.ExOther.                           (* not in the core library *)
+
 Section Sem.
   Variables upper lower : str -> str.      (* str.upper, str.lower *)
 
@@ -175,5 +331,9 @@ Section Sem.
       | Some t => (OVal (VStr (lower t)), st)
       | None => (ORaise Signature.ExOther, st)
       end
-    else (ORaise Signature.ExOther, st).             (* not in the core library *)
+    else
+      match ctx with
+      | Some t => (text_sem f a t, st)
+      | None => (ORaise Signature.ExOther, st)
+      end.
 End Sem.
